@@ -7,11 +7,13 @@ import IcyVerif.Drv.Comp
 import IcyVerif.Drv.Crc
 import IcyVerif.Drv.Font
 import IcyVerif.Drv.FontBox
+import IcyVerif.Drv.FontLoad
 import IcyVerif.Drv.IcyDraw
 import IcyVerif.Drv.Igs
 import IcyVerif.Drv.Loaders
 import IcyVerif.Drv.PalStream
 import IcyVerif.Drv.Palette
+import IcyVerif.Drv.Rect
 import IcyVerif.Drv.Rip
 import IcyVerif.Drv.Sauce
 import IcyVerif.Drv.Sixel
@@ -35,11 +37,13 @@ def dispatch (line : String) : String :=
   | "crc" :: rest => Crc.handle rest
   | "font" :: rest => Font.handle rest
   | "fontbox" :: rest => FontBox.handle rest
+  | "fontload" :: rest => FontLoad.handle rest
   | "icydraw" :: rest => IcyDraw.handle rest
   | "igs" :: rest => Igs.handle rest
   | "loaders" :: rest => Loaders.handle rest
   | "palstream" :: rest => PalStream.handle rest
   | "palette" :: rest => Palette.handle rest
+  | "rect" :: rest => Rect.handle rest
   | "rip" :: rest => Rip.handle rest
   | "sauce" :: rest => Sauce.handle rest
   | "sixel" :: rest => Sixel.handle rest
